@@ -5,7 +5,7 @@
     [seed_from_u64 seed] and is preserved by every sampler. *)
 From TU Require Import Base RNG_Model RNG_Proofs.
 Require Import Permutation.
-Open Scope N_scope.
+Local Open Scope N_scope.
 
 (** ** words *)
 Theorem w32_is_mod : forall x, w32 x = x mod 2 ^ 32.
